@@ -105,6 +105,10 @@ Section Proofs.
   Fixpoint cost_labels (ls : list dlabel) : N :=
     match ls with [] => 0 | l :: r => cost_label l + cost_labels r end.
 
+  (* a connection that was announced or is being connected and has not ended *)
+  Definition live_phase (st : lstate) (id : rid) : Prop :=
+    match phase_of id (ph st) with Some (PendingC _) | Some (Est _) => True | _ => False end.
+
   (* ---- the invariant tying the registries to the lifecycle checker ---- *)
   Record J (s : dstate) (st : lstate) (budget : N) : Prop := {
     J_adapter : adapter s <= max_adapter gen_layout;
@@ -123,7 +127,9 @@ Section Proofs.
     (* a connection the user removed has no entry, for good *)
     J_removed : forall id, In id (removed st) -> find_remote id (remotes s) = None /\ issued_remote s id;
     (* an ended connection (Disconnected / failed connect) has no entry *)
-    J_dead : forall id, phase_of id (ph st) = Some Dead -> find_remote id (remotes s) = None
+    J_dead : forall id, phase_of id (ph st) = Some Dead -> find_remote id (remotes s) = None;
+    (* and conversely: a connection that has not ended and was not removed by the user still has its entry *)
+    J_live : forall id, live_phase st id -> ~ In id (removed st) -> find_remote id (remotes s) <> None
   }.
 
   Lemma J_bound s st b : J s st b -> bound_ok s.
@@ -164,20 +170,27 @@ Section Proofs.
     (forall id, In id (listeners st) -> In id (listeners st')) /\
     (forall id, issued_remote s id -> find_remote id (remotes s) = None -> find_remote id (remotes s') = None) /\
     (forall id p', find_remote id (remotes s') = Some p' -> issued_remote s id ->
-                   exists p, find_remote id (remotes s) = Some p /\ p' = p).
+                   exists p, find_remote id (remotes s) = Some p /\ p' = p) /\
+    (forall id, In id (removed st) -> In id (removed st')) /\
+    (* an entry disappears during controller calls only through a successful remove() *)
+    (forall id, issued_remote s id -> find_remote id (remotes s) <> None -> find_remote id (remotes s') = None -> In id (removed st')).
 
   Lemma ext_refl s st : ext s s st st.
-  Proof. unfold ext. repeat split; auto; try lia. intros id p' H _. exists p'. auto. Qed.
+  Proof. unfold ext. repeat split; auto; try lia; [intros id p' H _; exists p'; auto|intros id _ H1 H2; contradiction]. Qed.
 
   Lemma ext_trans s1 s2 s3 st1 st2 st3 : ext s1 s2 st1 st2 -> ext s2 s3 st2 st3 -> ext s1 s3 st1 st3.
   Proof.
-    intros (A1 & B1 & C1 & D1 & E1 & F1 & G1) (A2 & B2 & C2 & D2 & E2 & F2 & G2). unfold ext.
+    intros (A1 & B1 & C1 & D1 & E1 & F1 & G1 & R1 & X1) (A2 & B2 & C2 & D2 & E2 & F2 & G2 & R2 & X2). unfold ext.
     assert (Hm : forall id, issued_remote s1 id -> issued_remote s2 id) by (intros id; apply issued_remote_mono; auto).
     repeat split; try lia; try congruence.
     - intros id Hi. rewrite D2 by auto. auto.
     - auto.
     - intros id Hi Hn. apply F2; auto.
     - intros id p' H3 Hi. destruct (G2 id p' H3 (Hm id Hi)) as (p2 & H2 & ->). exact (G1 id p2 H2 Hi).
+    - auto.
+    - intros id Hi H1 H3. destruct (find_remote id (remotes s2)) eqn:E2'.
+      + apply (X2 id (Hm id Hi)); [congruence|exact H3].
+      + apply R2. apply (X1 id Hi H1 E2').
   Qed.
 
   Lemma exec_ucall_J s st b c :
@@ -216,10 +229,13 @@ Section Proofs.
           -- intros i Hi. destruct (J_removed0 i Hi) as [Hn Hiss]. cbn [removed] in *. split; [|apply Hmono; exact Hiss].
              cbn [find_remote]. destruct (N.eqb_spec nid i) as [<-|Hne]; [contradiction|exact Hn].
           -- intros i. cbn [set_phase phase_of find_remote]. destruct (N.eqb_spec nid i) as [<-|Hne]; [discriminate|]. apply J_dead0.
+          -- intros i Hl Hr. unfold live_phase in Hl. cbn [ph removed set_phase phase_of find_remote] in Hl, Hr |- *.
+             destruct (N.eqb_spec nid i) as [Heq|Hne]; [discriminate|]. apply J_live0; assumption.
         * unfold ext. cbn [adapter next_remote next_local remotes ph listeners set_phase]. repeat split; try lia; auto.
           -- intros i Hi. cbn [set_phase phase_of]. destruct (N.eqb_spec nid i) as [<-|Hne]; [contradiction|reflexivity].
           -- intros i Hi Hn. cbn [find_remote]. destruct (N.eqb_spec nid i) as [<-|Hne]; [contradiction|exact Hn].
           -- intros i p'. cbn [find_remote]. destruct (N.eqb_spec nid i) as [<-|Hne]; [intros _ Hi; contradiction|]. intros H _. eauto.
+          -- intros i Hi H1. cbn [find_remote]. destruct (N.eqb_spec nid i) as [Heq|Hne]; [discriminate|]. intros H2. contradiction.
       + cbn [fst snd lifecycle_run lifecycle_step]. eexists. split; [reflexivity|]. rewrite N.sub_0_r. split; [exact HJ|apply ext_refl].
     - (* listen *)
       destruct ok; cbn [cost_ucall] in *.
@@ -244,6 +260,7 @@ Section Proofs.
         * unfold ext. cbn [adapter next_remote next_local remotes ph listeners]. repeat split; try lia; auto.
           -- intros i Hi. right. exact Hi.
           -- intros i p' H _. eauto.
+          -- intros i _ H1 H2. contradiction.
       + cbn [fst snd lifecycle_run lifecycle_step]. eexists. split; [reflexivity|]. rewrite N.sub_0_r. split; [exact HJ|apply ext_refl].
     - (* send: no state change, no lifecycle-relevant observation *)
       cbn [cost_ucall]. rewrite N.sub_0_r.
@@ -257,7 +274,7 @@ Section Proofs.
         * split.
           -- destruct HJ. constructor; cbn [adapter next_remote next_local remotes locals]; try assumption.
              intros i Hi. apply J_loc0. unfold remove_n in Hi. apply filter_In in Hi. apply Hi.
-          -- unfold ext. cbn [adapter next_remote next_local remotes]. repeat split; try lia; auto. intros i p' H _. eauto.
+          -- unfold ext. cbn [adapter next_remote next_local remotes]. repeat split; try lia; auto; [intros i p' H _; eauto|intros i _ H1 H2; contradiction].
         * split; [exact HJ|apply ext_refl].
       + unfold deregister_remote. destruct (find_remote id (remotes s)) as [p|] eqn:Ef; cbn [fst snd lifecycle_run lifecycle_step].
         * (* the entry exists: not removed before, not ended before *)
@@ -284,10 +301,14 @@ Section Proofs.
                 ** destruct (J_removed0 i Hi) as [Hn Hi']. split; [|exact Hi'].
                    destruct (N.eq_dec i id) as [->|Hne]; [apply find_remove_same|]. rewrite find_remove_other by exact Hne. exact Hn.
              ++ intros i Hd. destruct (N.eq_dec i id) as [->|Hne]; [apply find_remove_same|]. rewrite find_remove_other by exact Hne. apply J_dead0. exact Hd.
-          -- unfold ext. cbn [with_remotes adapter next_remote next_local remotes ph listeners]. repeat split; try lia; auto.
+             ++ intros i Hl Hr. assert (Hne : i <> id) by (intros ->; apply Hr; left; reflexivity).
+                rewrite find_remove_other by exact Hne. apply J_live0; [exact Hl|]. intros Hin. apply Hr. right. exact Hin.
+          -- unfold ext. cbn [with_remotes adapter next_remote next_local remotes ph listeners removed]. repeat split; try lia; auto.
              ++ intros i Hi Hn. destruct (N.eq_dec i id) as [->|Hne]; [apply find_remove_same|]. rewrite find_remove_other by exact Hne. exact Hn.
              ++ intros i p' H _. destruct (N.eq_dec i id) as [->|Hne]; [rewrite find_remove_same in H; discriminate|].
                 rewrite find_remove_other in H by exact Hne. eauto.
+             ++ intros i Hi. right. exact Hi.
+             ++ intros i _ H1 H2. destruct (N.eq_dec i id) as [->|Hne]; [left; reflexivity|]. rewrite find_remove_other in H2 by exact Hne. contradiction.
         * eexists. split; [reflexivity|]. split; [exact HJ|apply ext_refl].
     - (* is_ready *)
       cbn [cost_ucall]. rewrite N.sub_0_r.
@@ -333,9 +354,14 @@ Section Proofs.
   Lemma phase_set_other st id p i : i <> id -> phase_of i (ph (st_set st id p)) = phase_of i (ph st).
   Proof. intros H. cbn. destruct (N.eqb_spec id i); [congruence|reflexivity]. Qed.
 
-  Lemma J_dereg s st b id : J s st b -> J (with_remotes s (remove_remote id (remotes s))) st b.
+  Lemma live_set_other st id p i : i <> id -> live_phase (st_set st id p) i <-> live_phase st i.
+  Proof. intros H. unfold live_phase. rewrite phase_set_other by exact H. reflexivity. Qed.
+
+  (* the entry of a connection that was never announced (a failed inbound handshake) is dropped *)
+  Lemma J_dereg_silent s st b id :
+    J s st b -> phase_of id (ph st) = None -> J (with_remotes s (remove_remote id (remotes s))) st b.
   Proof.
-    intros HJ. destruct HJ. constructor; cbn [with_remotes adapter next_remote next_local remotes locals]; try assumption.
+    intros HJ Hnone. destruct HJ. constructor; cbn [with_remotes adapter next_remote next_local remotes locals]; try assumption.
     - intros i q H. destruct (N.eq_dec i id) as [->|Hne]; [rewrite find_remove_same in H; discriminate|].
       rewrite find_remove_other in H by exact Hne. exact (J_rem_issued0 i q H).
     - intros i q H. destruct (N.eq_dec i id) as [->|Hne]; [rewrite find_remove_same in H; discriminate|].
@@ -343,26 +369,51 @@ Section Proofs.
     - intros i Hi. destruct (J_removed0 i Hi) as [Hn Hi']. split; [|exact Hi'].
       destruct (N.eq_dec i id) as [->|Hne]; [apply find_remove_same|]. rewrite find_remove_other by exact Hne. exact Hn.
     - intros i Hd. destruct (N.eq_dec i id) as [->|Hne]; [apply find_remove_same|]. rewrite find_remove_other by exact Hne. apply J_dead0. exact Hd.
+    - intros i Hl Hr. destruct (N.eq_dec i id) as [->|Hne]; [unfold live_phase in Hl; rewrite Hnone in Hl; contradiction|].
+      rewrite find_remove_other by exact Hne. apply J_live0; assumption.
   Qed.
 
-  (* give a phase to an issued id that has no registry entry *)
-  Lemma J_set_phase_noentry s st b id p :
-    J s st b -> issued_remote s id -> find_remote id (remotes s) = None -> J s (st_set st id p) b.
+  (* the end of a connection: its entry (if still there) is dropped and its phase becomes Dead *)
+  Lemma J_dereg_end s st b id :
+    J s st b -> issued_remote s id -> J (with_remotes s (remove_remote id (remotes s))) (st_set st id Dead) b.
+  Proof.
+    intros HJ Hi. destruct HJ. constructor; cbn [with_remotes adapter next_remote next_local remotes locals]; try assumption.
+    - intros i q H. destruct (N.eq_dec i id) as [->|Hne]; [rewrite find_remove_same in H; discriminate|].
+      rewrite find_remove_other in H by exact Hne. exact (J_rem_issued0 i q H).
+    - intros i H. destruct (N.eq_dec i id) as [->|Hne]; [exact Hi|]. rewrite phase_set_other in H by exact Hne. exact (J_ph_issued0 i H).
+    - intros i q H. destruct (N.eq_dec i id) as [->|Hne]; [rewrite find_remove_same in H; discriminate|].
+      rewrite find_remove_other in H by exact Hne. rewrite phase_set_other by exact Hne. cbn [listeners st_set]. apply J_entry0. exact H.
+    - intros i Hrm. cbn [removed st_set] in Hrm. destruct (J_removed0 i Hrm) as [Hn Hi']. split; [|exact Hi'].
+      destruct (N.eq_dec i id) as [->|Hne]; [apply find_remove_same|]. rewrite find_remove_other by exact Hne. exact Hn.
+    - intros i Hd. destruct (N.eq_dec i id) as [->|Hne]; [apply find_remove_same|].
+      rewrite phase_set_other in Hd by exact Hne. rewrite find_remove_other by exact Hne. apply J_dead0. exact Hd.
+    - intros i Hl Hr. cbn [removed st_set] in Hr. destruct (N.eq_dec i id) as [->|Hne].
+      + unfold live_phase in Hl. rewrite phase_set_same in Hl. contradiction.
+      + rewrite find_remove_other by exact Hne. apply J_live0; [apply (live_set_other st id Dead i Hne); exact Hl|exact Hr].
+  Qed.
+
+  (* an issued id that has no registry entry any more is marked Dead *)
+  Lemma J_set_dead_noentry s st b id :
+    J s st b -> issued_remote s id -> find_remote id (remotes s) = None -> J s (st_set st id Dead) b.
   Proof.
     intros HJ Hi Hn. destruct HJ. constructor; try assumption.
     - intros i H. destruct (N.eq_dec i id) as [->|Hne]; [exact Hi|]. rewrite phase_set_other in H by exact Hne. auto.
     - intros i q H. assert (Hne : i <> id) by (intros ->; congruence).
       rewrite phase_set_other by exact Hne. cbn [listeners st_set]. apply J_entry0. exact H.
     - intros i Hd. destruct (N.eq_dec i id) as [->|Hne]; [exact Hn|]. rewrite phase_set_other in Hd by exact Hne. apply J_dead0. exact Hd.
+    - intros i Hl Hr. cbn [removed st_set] in Hr. destruct (N.eq_dec i id) as [->|Hne].
+      + unfold live_phase in Hl. rewrite phase_set_same in Hl. contradiction.
+      + apply J_live0; [apply (live_set_other st id Dead i Hne); exact Hl|exact Hr].
   Qed.
 
   (* mark ready + phase Est, whether or not the entry is still there *)
   Lemma J_set_ready s st b id peer :
     J s st b -> issued_remote s id ->
     (forall q, find_remote id (remotes s) = Some q -> r_peer q = peer) ->
+    (find_remote id (remotes s) = None -> In id (removed st)) ->
     J (with_remotes s (set_ready id (remotes s))) (st_set st id (Est peer)) b.
   Proof.
-    intros HJ Hi Hpeer. destruct HJ. constructor; cbn [with_remotes adapter next_remote next_local remotes locals]; try assumption.
+    intros HJ Hi Hpeer Hgone. destruct HJ. constructor; cbn [with_remotes adapter next_remote next_local remotes locals]; try assumption.
     - intros i q H. destruct (N.eq_dec i id) as [->|Hne]; [exact Hi|].
       rewrite find_set_ready_other in H by exact Hne. exact (J_rem_issued0 i q H).
     - intros i H. destruct (N.eq_dec i id) as [->|Hne]; [exact Hi|]. rewrite phase_set_other in H by exact Hne. exact (J_ph_issued0 i H).
@@ -376,13 +427,17 @@ Section Proofs.
       destruct (N.eq_dec i id) as [->|Hne]; [apply find_set_ready_none; exact Hn|]. rewrite find_set_ready_other by exact Hne. exact Hn.
     - intros i Hd. destruct (N.eq_dec i id) as [->|Hne]; [rewrite phase_set_same in Hd; discriminate|].
       rewrite phase_set_other in Hd by exact Hne. rewrite find_set_ready_other by exact Hne. apply J_dead0. exact Hd.
+    - intros i Hl Hr. cbn [removed st_set] in Hr. destruct (N.eq_dec i id) as [->|Hne].
+      + destruct (find_remote id (remotes s)) as [q0|] eqn:Ef; [rewrite (find_set_ready_same _ _ _ Ef); discriminate|].
+        exfalso. apply Hr. apply Hgone. reflexivity.
+      + rewrite find_set_ready_other by exact Hne. apply J_live0; [apply (live_set_other st id (Est peer) i Hne); exact Hl|exact Hr].
   Qed.
 
   Lemma ext_find_same s s' st st' id p :
     ext s s' st st' -> issued_remote s id -> find_remote id (remotes s) = Some p ->
     forall q, find_remote id (remotes s') = Some q -> q = p.
   Proof.
-    intros (_ & _ & _ & _ & _ & _ & G) Hi Hf q Hq. destruct (G id q Hq Hi) as (p0 & Hp0 & ->). congruence.
+    intros (_ & _ & _ & _ & _ & _ & G & _) Hi Hf q Hq. destruct (G id q Hq Hi) as (p0 & Hp0 & ->). congruence.
   Qed.
 
   Lemma ext_issued s s' st st' id : ext s s' st st' -> issued_remote s id -> issued_remote s' id.
@@ -390,6 +445,13 @@ Section Proofs.
 
   Lemma ext_phase s s' st st' id : ext s s' st st' -> issued_remote s id -> phase_of id (ph st') = phase_of id (ph st).
   Proof. intros (_ & _ & _ & D & _) H. auto. Qed.
+
+  Lemma ext_gone s s' st st' id :
+    ext s s' st st' -> issued_remote s id -> find_remote id (remotes s) <> None -> find_remote id (remotes s') = None -> In id (removed st').
+  Proof. intros (_ & _ & _ & _ & _ & _ & _ & _ & X) H1 H2 H3. exact (X id H1 H2 H3). Qed.
+
+  Lemma ext_removed s s' st st' id : ext s s' st st' -> In id (removed st) -> In id (removed st').
+  Proof. intros (_ & _ & _ & _ & _ & _ & _ & R & _) H. exact (R id H). Qed.
 
   Lemma ext_listener s s' st st' l : ext s s' st st' -> In l (listeners st) -> In l (listeners st').
   Proof. intros (_ & _ & _ & _ & E & _) H. auto. Qed.
@@ -446,9 +508,11 @@ Section Proofs.
       + intros i Hrm. destruct (J_removed0 i Hrm) as [Hn Hiss]. split; [|apply Hmono; exact Hiss].
         cbn [find_remote]. destruct (N.eqb_spec nid i) as [<-|Hne]; [contradiction|exact Hn].
       + intros i Hd. cbn [find_remote]. destruct (N.eqb_spec nid i) as [<-|Hne]; [rewrite Hph in Hd; discriminate|]. apply J_dead0. exact Hd.
+      + intros i Hlv Hr. cbn [find_remote]. destruct (N.eqb_spec nid i) as [Heq|Hne]; [discriminate|]. apply J_live0; [exact Hlv|exact Hr].
     - unfold ext. cbn [adapter next_remote next_local remotes]. repeat split; try lia; auto.
       + intros i Hi Hn. cbn [find_remote]. destruct (N.eqb_spec nid i) as [<-|Hne]; [contradiction|exact Hn].
       + intros i p'. cbn [find_remote]. destruct (N.eqb_spec nid i) as [<-|Hne]; [intros _ Hi; contradiction|]. intros H _. eauto.
+      + intros i Hi H1. cbn [find_remote]. destruct (N.eqb_spec nid i) as [Heq|Hne]; [discriminate|]. intros H2. contradiction.
   Qed.
 
   Lemma do_accepts_J items : forall s st b lid,
@@ -489,18 +553,19 @@ Section Proofs.
   Lemma resolve_pending_J s0 st0 b0 id p a :
     J s0 st0 b0 -> cost_ucalls (a_cb_conn a) <= b0 -> issued_remote s0 id ->
     phase_matches st0 id p -> (forall q, find_remote id (remotes s0) = Some q -> q = p) ->
+    (find_remote id (remotes s0) = None -> In id (removed st0)) ->
     exists st1, lifecycle_run st0 (snd (fst (resolve_pending s0 id p a))) = Some st1 /\
                 J (fst (fst (resolve_pending s0 id p a))) st1 (b0 - cost_ucalls (a_cb_conn a)) /\
                 issued_remote (fst (fst (resolve_pending s0 id p a))) id /\
                 (snd (resolve_pending s0 id p a) = true -> phase_of id (ph st1) = Some (Est (r_peer p))).
   Proof.
-    intros J0 Hc Hiss0 Hpm0 Hsame0. unfold resolve_pending, phase_matches in *. cbv zeta.
+    intros J0 Hc Hiss0 Hpm0 Hsame0 Hgone0. unfold resolve_pending, phase_matches in *. cbv zeta.
     destruct (r_ready p) eqn:Er.
     - exists st0. cbn [fst snd]. split; [reflexivity|]. split; [eapply J_weaken; [exact J0|lia]|]. split; [exact Hiss0|]. intros _. exact Hpm0.
     - destruct (a_pending a).
       + (* Ready: Connected(true) / Accepted *)
         assert (Hpeer : forall q, find_remote id (remotes s0) = Some q -> r_peer q = r_peer p) by (intros q Hq; rewrite (Hsame0 q Hq); reflexivity).
-        pose proof (J_set_ready s0 st0 b0 id (r_peer p) J0 Hiss0 Hpeer) as J0'.
+        pose proof (J_set_ready s0 st0 b0 id (r_peer p) J0 Hiss0 Hpeer Hgone0) as J0'.
         destruct (exec_ucalls_J (a_cb_conn a) _ _ b0 J0') as (st1 & H1 & J1 & E1); [lia|].
         destruct (exec_ucalls (with_remotes s0 (set_ready id (remotes s0))) (a_cb_conn a)) as [s1 o1]. cbn [fst snd] in *.
         assert (Hiss' : issued_remote (with_remotes s0 (set_ready id (remotes s0))) id) by exact Hiss0.
@@ -512,14 +577,22 @@ Section Proofs.
           rewrite (ext_phase _ _ _ _ _ E1 Hiss'). apply phase_set_same.
       + exists st0. cbn [fst snd]. split; [reflexivity|]. split; [eapply J_weaken; [exact J0|lia]|]. split; [exact Hiss0|discriminate].
       + (* Disconnected while pending *)
-        assert (Hstate : exists sd, fst (deregister_remote s0 id) = sd /\ J sd st0 b0 /\ find_remote id (remotes sd) = None /\ issued_remote sd id).
-        { unfold deregister_remote. destruct (find_remote id (remotes s0)) eqn:Ef0; cbn [fst].
-          - eexists. split; [reflexivity|]. split; [apply J_dereg; exact J0|]. split; [cbn; apply find_remove_same|exact Hiss0].
-          - exists s0. split; [reflexivity|]. split; [exact J0|]. split; [exact Ef0|exact Hiss0]. }
-        destruct Hstate as (sd & Esd & Jd & Hnd & Hissd). destruct (deregister_remote s0 id) as [sd' won]. cbn [fst] in Esd. subst sd'.
+        assert (Hdereg : fst (deregister_remote s0 id) = with_remotes s0 (remove_remote id (remotes s0)) \/
+                         (fst (deregister_remote s0 id) = s0 /\ find_remote id (remotes s0) = None)).
+        { unfold deregister_remote. destruct (find_remote id (remotes s0)) eqn:Ef0; cbn [fst]; [left; reflexivity|right; split; reflexivity]. }
         destruct (r_local p) as [l|].
-        * exists st0. cbn [fst snd]. split; [reflexivity|]. split; [eapply J_weaken; [exact Jd|lia]|]. split; [exact Hissd|discriminate].
-        * pose proof (J_set_phase_noentry sd st0 b0 id Dead Jd Hissd Hnd) as Jd'.
+        * (* an accepted connection that never became ready: dropped silently *)
+          destruct Hpm0 as [Hnone _].
+          assert (Jd : J (fst (deregister_remote s0 id)) st0 b0).
+          { destruct Hdereg as [->|[-> _]]; [apply J_dereg_silent; assumption|exact J0]. }
+          assert (Hissd : issued_remote (fst (deregister_remote s0 id)) id) by (destruct Hdereg as [->|[-> _]]; exact Hiss0).
+          destruct (deregister_remote s0 id) as [sd won]. cbn [fst snd] in *.
+          exists st0. split; [reflexivity|]. split; [eapply J_weaken; [exact Jd|lia]|]. split; [exact Hissd|discriminate].
+        * (* an explicit connect that failed: Connected(_, false) *)
+          assert (Jd' : J (fst (deregister_remote s0 id)) (st_set st0 id Dead) b0).
+          { destruct Hdereg as [->|[-> Hn]]; [apply J_dereg_end; assumption|apply J_set_dead_noentry; assumption]. }
+          assert (Hissd : issued_remote (fst (deregister_remote s0 id)) id) by (destruct Hdereg as [->|[-> _]]; exact Hiss0).
+          destruct (deregister_remote s0 id) as [sd won]. cbn [fst snd] in *.
           destruct (exec_ucalls_J (a_cb_conn a) _ _ b0 Jd') as (st1 & H1 & J1 & E1); [lia|].
           destruct (exec_ucalls sd (a_cb_conn a)) as [s1 o1]. cbn [fst snd] in *.
           exists st1. split.
@@ -548,7 +621,7 @@ Section Proofs.
       set (b3 := b2 - cost_ucalls (a_race a)) in *.
       unfold deregister_remote. destruct (find_remote id (remotes s3)) as [q|] eqn:Ef3.
       + assert (J4 : J (with_remotes s3 (remove_remote id (remotes s3))) (st_set st3 id Dead) b3).
-        { apply J_set_phase_noentry; [apply J_dereg; exact J3|exact Hiss3|cbn; apply find_remove_same]. }
+        { apply J_dereg_end; [exact J3|exact Hiss3]. }
         destruct (exec_ucalls_J (a_cb_disc a) _ _ b3 J4) as (st5 & H5 & J5 & E5); [unfold b3, b2; lia|].
         destruct (exec_ucalls (with_remotes s3 (remove_remote id (remotes s3))) (a_cb_disc a)) as [s5 o5]. cbn [fst snd] in *.
         exists st5. split.
@@ -591,6 +664,8 @@ Section Proofs.
         destruct (r_local p); [|exact Hpm]. destruct Hpm. split; [assumption|eapply ext_listener; eauto]. }
       assert (Hsame0 : forall q, find_remote id (remotes s0) = Some q -> q = p) by (eapply ext_find_same; eauto).
       set (b0 := b - cost_ucalls (a_race0 a)) in *.
+      assert (Hgone0 : find_remote id (remotes s0) = None -> In id (removed st0)).
+      { intros Hn. apply (ext_gone _ _ _ _ _ E0 Hiss); [congruence|exact Hn]. }
       destruct (resolve_pending_J s0 st0 b0 id p a J0) as (st1 & H1 & J1 & Hiss1 & Hready); try assumption; [unfold b0; lia|].
       destruct (resolve_pending s0 id p a) as [[s1 o1] ready]. cbn [fst snd] in *.
       set (b1 := b0 - cost_ucalls (a_cb_conn a)) in *.
@@ -736,6 +811,117 @@ Section Proofs.
     intros H1. specialize (He H1). unfold ended in He. apply orb_prop in He. destruct He as [He|He].
     - apply mem_n_true in He. exact (proj1 (J_removed _ _ _ HJ _ He)).
     - destruct (phase_of id (ph st')) as [[| |]|] eqn:Ep; try discriminate He. exact (J_dead _ _ _ HJ _ Ep).
+  Qed.
+
+  (* ---- connect_sync: what is_ready() answers, against what the trace says about the connection ---- *)
+  Definition R (id : rid) (st : lstate) (m : summ) : Prop :=
+    mem_n id (removed st) = c_removed m /\
+    match phase_of id (ph st) with
+    | None => c_issued m = false /\ c_est m = false /\ c_failed m = false /\ c_disc m = false /\ c_acc m = false
+    | Some (PendingC _) => c_issued m = true /\ c_est m = false /\ c_failed m = false /\ c_disc m = false /\ c_acc m = false
+    | Some (Est _) => c_failed m = false /\ c_disc m = false /\ c_est m = c_issued m /\ c_acc m = negb (c_issued m)
+    | Some Dead => c_acc m = negb (c_issued m) /\
+                   ((c_failed m = true /\ c_est m = false /\ c_disc m = false /\ c_issued m = true) \/
+                    (c_disc m = true /\ c_failed m = false /\ c_est m = c_issued m))
+    end.
+
+  Ltac rfin := cbn [c_issued c_est c_failed c_disc c_removed c_acc negb ph removed] in *; intuition (try congruence); repeat match goal with H : _ = true |- _ => rewrite H in * | H : _ = false |- _ => rewrite H in * end; cbn [negb] in *; try congruence; try reflexivity.
+
+  Lemma R_step id st m o st' :
+    resource_type gen_layout id = Remote -> R id st m -> lifecycle_step st o = Some st' -> R id st' (summ_step id m o).
+  Proof.
+    intros Ht [Hr Hp] H. unfold R.
+    destruct o as [[[i peer] ok|[i peer] l|[i peer] d|[i peer]]|c r|i len|i to len]; cbn [lifecycle_step summ_step] in *.
+    - (* Connected *)
+      destruct (phase_of i (ph st)) as [[p|p|]|] eqn:Ep; try discriminate H.
+      destruct (p =? peer); [|discriminate H]. inversion H; subst; clear H. cbn [ph removed]. rewrite phase_set_cases.
+      destruct (N.eqb_spec i id) as [->|Hne]; [rewrite Ep in Hp; destruct ok; rfin|rfin].
+    - (* Accepted *)
+      destruct (phase_of i (ph st)) eqn:Ep; [discriminate H|]. destruct (mem_n l (listeners st)); [|discriminate H].
+      inversion H; subst; clear H. cbn [ph removed]. rewrite phase_set_cases.
+      destruct (N.eqb_spec i id) as [->|Hne]; [rewrite Ep in Hp; rfin|rfin].
+    - (* Message *)
+      assert (st' = st).
+      { destruct (resource_type gen_layout i); [destruct (mem_n i (listeners st)); inversion H; reflexivity|].
+        destruct (phase_of i (ph st)) as [[p|p|]|]; try discriminate H. destruct (p =? peer); inversion H; reflexivity. }
+      subst. split; assumption.
+    - (* Disconnected *)
+      destruct (phase_of i (ph st)) as [[p|p|]|] eqn:Ep; try discriminate H.
+      destruct ((p =? peer) && negb (mem_n i (removed st))) eqn:Ec; [|discriminate H]. inversion H; subst; clear H. cbn [ph removed].
+      rewrite phase_set_cases. destruct (N.eqb_spec i id) as [->|Hne]; [rewrite Ep in Hp; rfin|rfin].
+    - (* a return value *)
+      destruct r as [[[i2 p2]|]|[i2|]|s0|[|]|r0].
+      + destruct c; cbn [lifecycle_step summ_step] in *;
+          (destruct (phase_of i2 (ph st)) eqn:Ep; [discriminate H|]); inversion H; subst; clear H; cbn [ph removed]; rewrite phase_set_cases;
+          (destruct (N.eqb_spec i2 id) as [->|Hne]; [rewrite Ep in Hp; rfin|rfin]).
+      + destruct c; cbn [lifecycle_step summ_step] in *; inversion H; subst; split; assumption.
+      + destruct c; cbn [lifecycle_step summ_step] in *; (destruct (mem_n i2 (listeners st)); [discriminate H|]); inversion H; subst; cbn [ph removed]; split; assumption.
+      + destruct c; cbn [lifecycle_step summ_step] in *; inversion H; subst; split; assumption.
+      + destruct c; cbn [lifecycle_step summ_step] in *; inversion H; subst; split; assumption.
+      + (* RRemove true *)
+        destruct c as [ok0 peer0|ok0|ep0 len0 ans0|i|i];
+          try (cbn [lifecycle_step summ_step] in *; inversion H; subst; split; assumption).
+        cbn [lifecycle_step summ_step] in *.
+        destruct (N.eqb_spec i id) as [->|Hne].
+        * rewrite Ht in H. destruct (mem_n id (removed st)) eqn:Er; [discriminate H|].
+          destruct (phase_of id (ph st)) as [[p|p|]|] eqn:Ep; try discriminate H; inversion H; subst; clear H; cbn [ph removed mem_n existsb];
+            rewrite N.eqb_refl, ?Ep; rfin.
+        * destruct (resource_type gen_layout i); [inversion H; subst; split; assumption|].
+          destruct (mem_n i (removed st)); [discriminate H|].
+          destruct (phase_of i (ph st)) as [[p|p|]|]; try discriminate H; inversion H; subst; clear H; cbn [ph removed mem_n existsb];
+            (destruct (N.eqb_spec id i); [congruence|]); cbn [orb]; split; assumption.
+      + destruct c; cbn [lifecycle_step summ_step] in *; inversion H; subst; split; assumption.
+      + destruct c; cbn [lifecycle_step summ_step] in *; inversion H; subst; split; assumption.
+    - inversion H; subst. split; assumption.
+    - inversion H; subst. split; assumption.
+  Qed.
+
+
+  Lemma R_run id tr : forall st m st',
+    resource_type gen_layout id = Remote -> R id st m -> lifecycle_run st tr = Some st' ->
+    R id st' (fold_left (summ_step id) tr m).
+  Proof.
+    induction tr as [|o r IH]; intros st m st' Ht HR H; cbn [lifecycle_run fold_left] in *.
+    - inversion H; subst. exact HR.
+    - destruct (lifecycle_step st o) as [st1|] eqn:Es; [|discriminate H].
+      eapply IH; [exact Ht| |exact H]. eapply R_step; eauto.
+  Qed.
+
+  Lemma R_init id : R id {| ph := []; listeners := []; removed := [] |} summ0.
+  Proof. unfold R. cbn. repeat split. Qed.
+
+  (* C03, connect_sync: for EVERY script, whenever connect_sync polls is_ready() for a connection
+     that connect() returned and that the user did not remove() meanwhile, the answer is truthful
+     about what was delivered so far -- except in the known class K1 (established, and already
+     closed by the peer). *)
+  Theorem connect_sync_truthful_outside_K1 a ls id :
+    a <= max_adapter gen_layout -> cost_labels ls <= max_base gen_layout + 1 ->
+    resource_type gen_layout id = Remote ->
+    c_issued (summ_of id (snd (drun (dinit a) ls))) = true ->
+    c_removed (summ_of id (snd (drun (dinit a) ls))) = false ->
+    K1_class (summ_of id (snd (drun (dinit a) ls))) = false ->
+    sync_truthful (summ_of id (snd (drun (dinit a) ls))) (is_ready_answer (fst (drun (dinit a) ls)) id).
+  Proof.
+    intros Ha Hc Ht Hiss Hnr HK.
+    destruct (drun_J ls (dinit a) {| ph := []; listeners := []; removed := [] |} (max_base gen_layout + 1)) as (st' & H & HJ);
+      [apply J_init; [exact Ha|lia]|exact Hc|].
+    pose proof (R_run id _ _ _ _ Ht (R_init id) H) as [Hrm Hph]. fold (summ_of id (snd (drun (dinit a) ls))) in *.
+    set (m := summ_of id (snd (drun (dinit a) ls))) in *. set (s := fst (drun (dinit a) ls)) in *.
+    rewrite N.sub_diag in HJ || idtac.
+    unfold is_ready_answer, sync_truthful. destruct (find_remote id (remotes s)) as [p|] eqn:Ef; cbn [option_map].
+    - pose proof (J_entry _ _ _ HJ _ _ Ef) as He. destruct (r_ready p).
+      + rewrite He in Hph. destruct Hph as (_ & Hd & He' & _). split; [congruence|exact Hd].
+      + destruct (r_local p) as [l|].
+        * destruct He as [Hn _]. rewrite Hn in Hph. destruct Hph as (Hi & _). congruence.
+        * rewrite He in Hph. destruct Hph as (_ & He' & Hf & _). split; assumption.
+    - assert (Hnotin : ~ In id (removed st')).
+      { intros Hin. apply mem_n_true in Hin. congruence. }
+      destruct (phase_of id (ph st')) as [[q|q|]|] eqn:Ep.
+      + exfalso. apply (J_live _ _ _ HJ id); [unfold live_phase; rewrite Ep; exact I|exact Hnotin|exact Ef].
+      + exfalso. apply (J_live _ _ _ HJ id); [unfold live_phase; rewrite Ep; exact I|exact Hnotin|exact Ef].
+      + destruct Hph as (_ & [(_ & He' & _)|(Hd & _ & He')]); [exact He'|].
+        unfold K1_class in HK. rewrite Hd, andb_true_r in HK. exact HK.
+      + destruct Hph as (Hi & _). congruence.
   Qed.
 
   (* C13 / C04: what a call on an id without a registry entry answers, without reaching the adapter *)
